@@ -79,6 +79,21 @@ def _load_repo():
     return repo
 
 
+def _coords_fn(repo, name):
+    """qualified name of the function the name `name` stands for in esutil.coords: defined there, or imported into it from another package
+    module (a helper moved to a module of its own and re-exported is still the function coords.<name>)"""
+    mod = repo.modules.get("esutil.coords")
+    if mod is not None:
+        full = repo.resolve_name(mod, name)
+        if repo.has(full):
+            return full
+    return CO + name
+
+
+def _opaque_folds(repo):
+    return {_coords_fn(repo, "atbound"), _coords_fn(repo, "atbound2")}
+
+
 # ---------------------------------------------------------------------------
 # the term evaluator with the numpy / call idioms the coordinate code may be written in (all of them abstract: one symbolic
 # element stands for every element of an array; nothing is executed)
@@ -92,6 +107,16 @@ def _np_full(env, node):
         return None
     full = env.se.repo.resolve_name(env.mod, d)
     return full if full.startswith(("numpy.", "math.")) else None
+
+
+class _Instance(dict):
+    """a constant-evaluated object: {attribute: value} (attribute reads go through symx.Env.ev's dict case)"""
+
+
+def _is_literal(e):
+    if isinstance(e, ast.UnaryOp) and isinstance(e.op, (ast.USub, ast.UAdd)):
+        e = e.operand
+    return isinstance(e, ast.Constant) and (e.value is None or isinstance(e.value, (bool, int, float, str)))
 
 
 class _Env(symx.Env):
@@ -148,6 +173,27 @@ class _Env(symx.Env):
             return self._masked_ufunc(c, w)
         d = dotted_name(f)
         full = self.se.repo.resolve_name(self.mod, d) if d else None
+        # object.__setattr__(obj, "name", value): the attribute store of a frozen dataclass, obj.name = value
+        if d == "object.__setattr__" and "object" not in self.vars and len(c.args) == 3 and not c.keywords and isinstance(c.args[0], ast.Name) \
+                and isinstance(const_value(c.args[1]), str):
+            self.vars["%s.%s" % (c.args[0].id, const_value(c.args[1]))] = self.ev(c.args[2])
+            return None
+        if full == "dataclasses.asdict" and len(c.args) == 1 and not c.keywords:
+            o = self.ev(c.args[0])
+            if isinstance(o, _Instance):
+                return dict(o)
+            raise symx.Unsupported("symx: asdict() of a value that is not a dataclass instance at %s" % self.where(c))
+        if full and d and d.split(".")[0] not in self.vars and self.se.repo.class_of(full) and self.se.repo.class_of(full)[1].decorator_list:
+            return self._construct(c, *self.se.repo.class_of(full))
+        # a package helper kept as an uninterpreted term: its arguments in the order of its parameters, however they are passed (by
+        # position, by keyword, left to a literal default)
+        if full and self.se.repo.has(full) and full in self.se.opaque:
+            nc = self._positional(c, self.se.repo.func(full))
+            if nc is not None:
+                return super().call(nc, stmt_level)
+            info = _fold_info(self.se.repo)
+            if info is not None and info["qualname"] == full:
+                raise symx.Unsupported("symx: arguments of the range fold `%s` at %s" % (norm(c)[:60], self.where(c)))
         if full and self.se.repo.has(full) and full not in self.se.opaque and self.depth < self.se.inline_depth:
             tgt = self.se.repo.func(full)
             if tgt.qualname not in self.se.opaque and any(p.startswith("*") and not p.startswith("**") for p in tgt.params) \
@@ -180,6 +226,99 @@ class _Env(symx.Env):
         new = sp.Piecewise((symx._as_expr(r), m.cond), (symx._as_expr(old), True))
         self.assign(out, new, c)
         return new
+
+    def _positional(self, c, tgt):
+        """the call with its arguments in the order of tgt's parameters (keywords bound, literal defaults filled in), or None.  For the range
+        fold whose step is one of its parameters (see _fold_info) a step of exactly 360 is left out: atbound(v, lo, hi) is the fold by whole
+        turns of 360 whether the 360 is written in the helper or handed to it"""
+        b = _bound_args(c, tgt)
+        if b is None:
+            return None
+        args = []
+        for p in [p for p in tgt.params if not p.startswith("*")]:
+            if p in b:
+                args.append(b[p])
+            elif p in tgt.defaults and _is_literal(tgt.defaults[p]):
+                args.append(tgt.defaults[p])
+            else:
+                return None
+        info = _fold_info(self.se.repo)
+        if info is not None and tgt.qualname == info["qualname"] and info["period_index"] is not None and len(args) == info["period_index"] + 1:
+            try:
+                v = self.ev(args[-1])
+            except symx.Unsupported:
+                v = None
+            if v is not None and not isinstance(v, bool) and symx._is_expr(v) and sp.simplify(symx._as_expr(v) - 360) == 0:
+                args = args[:-1]
+        return ast.copy_location(ast.Call(func=c.func, args=args, keywords=[]), c)
+
+    def _construct(self, c, cmod, cls):
+        """constant evaluation of the construction of a plain dataclass (no bases, generated __init__): the fields in order bound to the
+        arguments / their defaults, then __post_init__ evaluated on them (attribute stores, also through object.__setattr__ as a frozen
+        dataclass has to).  -> _Instance {attribute: value}"""
+        repo = self.se.repo
+        bad = "symx: construction of `%s` at %s" % (cls.name, self.where(c))
+        isdc = False
+        for dec in cls.decorator_list:
+            dn = dotted_name(dec.func if isinstance(dec, ast.Call) else dec)
+            if not dn or repo.resolve_name(cmod, dn) != "dataclasses.dataclass":
+                raise symx.Unsupported(bad + ": decorated class")
+            isdc = True
+            if isinstance(dec, ast.Call) and (dec.args or any(k.arg not in ("frozen", "eq", "order", "repr", "slots", "unsafe_hash") for k in dec.keywords)):
+                raise symx.Unsupported(bad + ": dataclass options")
+        if not isdc or cls.bases or cls.keywords:
+            raise symx.Unsupported(bad + ": not a plain dataclass")
+        cenv = type(self)(self.se, None, cmod, {}, {}, depth=self.depth + 1)
+        fields, attrs, post = [], {}, None
+        for st in cls.body:
+            if isinstance(st, ast.Pass) or (isinstance(st, ast.Expr) and isinstance(st.value, ast.Constant)):
+                continue
+            if isinstance(st, ast.AnnAssign) and isinstance(st.target, ast.Name) and not any(w_ in norm(st.annotation) for w_ in ("ClassVar", "InitVar", "KW_ONLY")):
+                default, init = st.value, True
+                if isinstance(default, ast.Call) and dotted_name(default.func) and repo.resolve_name(cmod, dotted_name(default.func)) == "dataclasses.field":
+                    if default.args or any(k.arg not in ("default", "init", "repr", "compare", "hash", "metadata") for k in default.keywords):
+                        raise symx.Unsupported(bad + ": field options of `%s`" % st.target.id)
+                    iv = kwarg(default, "init")
+                    if iv is not None and not isinstance(const_value(iv), bool):
+                        raise symx.Unsupported(bad + ": field options of `%s`" % st.target.id)
+                    init = True if iv is None else const_value(iv)
+                    default = kwarg(default, "default")
+                fields.append((st.target.id, default, init))
+            elif isinstance(st, ast.FunctionDef) and st.name == "__post_init__" and not st.decorator_list:
+                post = st
+            elif isinstance(st, ast.FunctionDef) and not (st.name.startswith("__") and st.name.endswith("__")):
+                continue            # a method or property: not an attribute this evaluation provides
+            else:
+                raise symx.Unsupported(bad + ": class body statement at line %s" % getattr(st, "lineno", "?"))
+        if any(isinstance(a, ast.Starred) for a in c.args) or any(k.arg is None for k in c.keywords):
+            raise symx.Unsupported(bad + ": starred arguments")
+        inits = [n for n, _, i in fields if i]
+        if len(c.args) > len(inits):
+            raise symx.Unsupported(bad + ": too many arguments")
+        given = dict(zip(inits, c.args))
+        for k in c.keywords:
+            if k.arg in given or k.arg not in inits:
+                raise symx.Unsupported(bad + ": argument `%s`" % k.arg)
+            given[k.arg] = k.value
+        for n, default, init in fields:
+            if init and n in given:
+                attrs[n] = self.ev(given[n])
+            elif default is not None:
+                attrs[n] = cenv.ev(default)
+            elif init:
+                raise symx.Unsupported(bad + ": no value for field `%s`" % n)
+        if post is not None:
+            pa = post.args
+            if len(pa.args) != 1 or pa.posonlyargs or pa.kwonlyargs or pa.vararg or pa.kwarg:
+                raise symx.Unsupported(bad + ": __post_init__ with parameters")
+            me = pa.args[0].arg
+            pfi = repo.funcs.get("%s.%s.__post_init__" % (cmod.name, cls.name))
+            v0 = {me: symx.Opaque("self")}
+            v0.update({"%s.%s" % (me, k): v for k, v in attrs.items()})
+            penv = type(self)(self.se, pfi, cmod, v0, {}, depth=self.depth + 1)
+            penv.exec_body(post.body, sp.true)
+            attrs = {k[len(me) + 1:]: v for k, v in penv.vars.items() if k.startswith(me + ".") and "." not in k[len(me) + 1:]}
+        return _Instance(attrs)
 
     def _call_varargs(self, c, tgt):
         """inline a package helper  def h(a, b, *rest)  called with plain positional / keyword arguments; arrays passed through *rest
@@ -798,11 +937,12 @@ def rotate(chk, repo):
 
 
 def unitvec(chk, repo):
-    se = _Eval(repo, opaque={CO + "atbound", CO + "atbound2"})
+    se = _Eval(repo, opaque=_opaque_folds(repo))
     x, y, z = symx.symbols("x", "y", "z")
     fi = repo.func(CO + "xyz2eq")
     chk.analysed_unit(fi.qualname)
     AT = sp.Function("atbound")
+    info = _fold_info(repo)
     node = sp.Rational(95) * sp.pi / 180
     for units in ("deg", "rad"):
         for stomp in (False, True):
@@ -818,7 +958,7 @@ def unitvec(chk, repo):
             eq, d = symx.equal(lat, sp.asin(z) * f)
             chk.ob("R09.6", tag + "::latitude", eq, fi.where(), "dec = asin(z) in %s" % units)
             base = (sp.atan2(y, x) + (node if stomp else 0)) * f
-            okf, why = _fold_ok(lon, base, full, AT)
+            okf, why = _fold_ok(lon, base, full, AT, period_arg=bool(info is not None and info["period_index"] == 3))
             chk.ob("R09.6", (tag if okf else "xyz2eq[units=%s]" % units) + "::longitude-and-range-fold", okf, fi.where(),
                    "ra = atan2(y,x) in %s folded into [0, %s) with bounds in the same units: %s" % (units, full, why))
     fi = repo.func(CO + "eq2xyz")
@@ -831,19 +971,26 @@ def unitvec(chk, repo):
         chk.ob("R09.6", "eq2xyz[units=%s,stomp=True]" % units, ok, fi.where(), "stomp convention subtracts the node (95 deg) in radians before projecting")
 
 
-def _fold_ok(lon, base, full, AT):
+def _fold_ok(lon, base, full, AT, period_arg=False):
     """accepted range folds: opaque atbound(base, 0, full) (its period is 360, so only valid in degrees), or a one-step wrap
     Piecewise((base + full, base < 0), (base, True))"""
-    if isinstance(lon, AT):
-        v, lo, hi = lon.args
+    if isinstance(lon, AT) and len(lon.args) == 4 and not period_arg:
+        return None, "range-fold helper with a fourth argument that is not known to be its period: %s" % str(lon)[:120]
+    if isinstance(lon, AT) and len(lon.args) in (3, 4):
+        # atbound(v, lo, hi) steps by 360; atbound(v, lo, hi, period) by the period handed to it (see _Env._positional / _fold_info)
+        v, lo, hi = lon.args[:3]
+        period = lon.args[3] if len(lon.args) == 4 else sp.Integer(360)
         eq, _ = symx.equal(v, base)
         if not eq:
             return False, "folded value is %s, expected %s" % (v, base)
         if not (lo == 0 and sp.simplify(hi - full) == 0):
             return False, "fold bounds are (%s, %s) but the value is in units where a full turn is %s" % (lo, hi, full)
-        if sp.simplify(full - 360) != 0:
-            return False, "the range-fold helper steps by 360 (degrees) but the value is in radians"
-        return True, "atbound(v, 0, %s)" % hi
+        if sp.simplify(period - full) != 0:
+            if not period.is_number:
+                return None, "the range-fold helper steps by %s: not a number" % period
+            return False, "the range-fold helper steps by %s%s but a full turn is %s in the units of the value" % (
+                period, " (degrees)" if period == 360 else "", full)
+        return True, "atbound(v, 0, %s) stepping by %s" % (hi, period)
     if isinstance(lon, sp.Piecewise) and len(lon.args) == 2:
         (v1, c1), (v2, c2) = lon.args
         eqb, _ = symx.equal(v2, base)
@@ -866,7 +1013,7 @@ def _fold_ok(lon, base, full, AT):
 
 
 def sdss(chk, repo):
-    se = _Eval(repo, opaque={CO + "atbound", CO + "atbound2"})
+    se = _Eval(repo, opaque=_opaque_folds(repo))
     mod = repo.module("esutil.coords")
     par = se.module_const(mod, "_sdsspar")
     ok = isinstance(par, dict) and sp.simplify(par.get("node", 0) - 95 * sp.pi / 180) == 0 and sp.simplify(par.get("etapole", 0) - sp.Rational(65, 2) * sp.pi / 180) == 0
@@ -922,6 +1069,11 @@ def sdss(chk, repo):
         chk.ob("R09.7", "sdss2eq::ra", eq2, fi.where(), "ra = atan2(cos(ceta+etapole) cos clambda, -sin clambda) + node in degrees")
         folds = [x for x in walk_no_nested(fi.node) if isinstance(x, ast.Call) and call_name(x) == "atbound2"]
         okf = len(folds) == 1 and [norm(a) for a in folds[0].args] == ["dec", "ra"]
+        if not okf and len(folds) == 1 and isinstance(dec_o, AT2) and len(dec_o.args) == 2:
+            # the roles as the evaluated call has them, however the arguments are passed (keywords, other local names): the value bound to the
+            # pair fold's first (latitude) parameter is the declination term and the one bound to its second (longitude) parameter the right
+            # ascension term; the fold is opaque here, so its term sits on the returned declination
+            okf = bool(eq1 and symx.equal(dec_o.args[1], ra_ref)[0] and symx.equal(ra_o, ra_ref)[0])
         if not okf and not folds and lonfold and eq1 and eq2 and not isinstance(dec_o, AT2):
             # the fold of the pair spelled out: the latitude is an arcsine in degrees (within [-90,90] as it is), the longitude is folded into [0,360]
             okf = True
@@ -1397,17 +1549,67 @@ def _nonempty_cond(env, t):
     return v.cond if isinstance(v, symx.Mask) else None
 
 
+def _fold_info(repo):
+    """how the one-dimensional range fold coords.atbound steps, read off its loops (rule atbound::fold-structure): {'qualname', 'period_index'}
+    with period_index None when both loops step by the literal 360, or the position of the parameter they step by; None when the loops are not
+    recognised as a fold by one period"""
+    a = _analyse_fold(repo)
+    if a is None or a["period"] is None:
+        return None
+    P = a["period"]
+    params = [p for p in a["fi"].params]
+    if P.is_number:
+        return dict(qualname=a["fi"].qualname, period_index=None)
+    if str(P) not in params:
+        return None
+    return dict(qualname=a["fi"].qualname, period_index=params.index(str(P)))
+
+
 def folds(chk, repo):
-    """R09.8 atbound(longitude, minval, maxval): each while loop is checked by one symbolic step from an arbitrary state L: the loop runs while
-    some element satisfies C(L); the body moves exactly the elements satisfying C(L) by one turn in the direction that undoes C; and the loop
-    test after the body is C of the *updated* value (recomputed each step)."""
-    fi = repo.func(CO + "atbound")
+    """R09.8 atbound(longitude, minval, maxval[, period]): each while loop is checked by one symbolic step from an arbitrary state L: the loop
+    runs while some element satisfies C(L); the body moves exactly the elements satisfying C(L) by one period in the direction that undoes C
+    (the period is the literal 360, or a parameter of the fold -- what is handed to it is checked where it is called: _positional, _fold_ok);
+    and the loop test after the body is C of the *updated* value (recomputed each step)."""
+    a = _analyse_fold(repo)
+    if a is None:
+        repo.func(_coords_fn(repo, "atbound"))          # raises: the anchor is gone
+        raise AnalysisError("range fold analysis re-entered")
+    fi, found, unrec = a["fi"], a["found"], a["unrec"]
     chk.analysed_unit(fi.qualname)
+    ok = None
+    alld = [d for v in found.values() for d, _ in v]
+    if any(d["moves"] is False or d["recomputed"] is False for d in alld):
+        ok = False
+    elif unrec or set(found) != {"below-minimum", "above-maximum"} or any(len(v) != 1 for v in found.values()) \
+            or any(d["moves"] is None or d["recomputed"] is None for d in alld) or a["period"] is None:
+        ok = None
+    else:
+        ok = True
+    chk.ob("R09.8", "atbound::fold-structure", ok, fi.where(),
+           "range fold: add one period (360, or the period handed to it) while below the minimum, subtract it while above the maximum (loop "
+           "conditions recomputed each step): %s%s"
+           % ("; ".join(t for v in found.values() for _, t in v), ("; not recognised: " + "; ".join(unrec)) if unrec else ""))
+
+
+def _analyse_fold(repo):
+    """one symbolic step of each loop of coords.atbound -> {'fi', 'found': {side: [(verdicts, text)]}, 'unrec': [...], 'period': the step both
+    loops make (360 or the symbol of a parameter), or None}; None when atbound does not exist (or while this analysis is running)"""
+    if "_c09_fold" in repo.__dict__:
+        return repo.__dict__["_c09_fold"]
+    repo.__dict__["_c09_fold"] = None
+    q = _coords_fn(repo, "atbound")
+    if not repo.has(q):
+        return None
+    fi = repo.func(q)
     se = _Eval(repo)
     pl, pa, pb = [p for p in fi.params][:3]
     L0 = sp.Symbol("L", real=True)
     a, b = sp.Symbol("minval", real=True), sp.Symbol("maxval", real=True)
-    env = _Env(se, fi, fi.module, {pl: L0, pa: a, pb: b}, {})
+    extras = {p.lstrip("*"): sp.Symbol(p.lstrip("*"), positive=True) for p in fi.params[3:]}
+    v0 = {pl: L0, pa: a, pb: b}
+    v0.update(extras)
+    env = _Env(se, fi, fi.module, v0, {})
+    periods = []
     found = {}
     unrec = []
     nloop = 0
@@ -1458,10 +1660,16 @@ def folds(chk, repo):
         c1 = _nonempty_cond(env, st.test)
         desc = {"moves": None, "recomputed": None}
         if isinstance(L1, sp.Basic) and not rets:
-            if symx.equal(L1, sp.Piecewise((L + step, c0), (L, True)))[0]:
+            sgn = 1 if step > 0 else -1
+            hit = [P for P in [sp.Integer(360)] + list(extras.values()) if symx.equal(L1, sp.Piecewise((L + sgn * P, c0), (L, True)))[0]]
+            if hit:
                 desc["moves"] = True
-            elif isinstance(L1, sp.Piecewise) and len(L1.args) == 2 and L1.args[1] == (L, sp.true) and (L1.args[0][0] - L).is_number:
-                # the selected elements are moved, but not by one turn against the violated bound, or not the elements tested
+                periods.append(hit[0])
+                step = sgn * hit[0]
+            elif isinstance(L1, sp.Piecewise) and len(L1.args) == 2 and L1.args[1] == (L, sp.true) and (
+                    (L1.args[0][0] - L).is_number or any(sp.simplify(L1.args[0][0] - L + sgn * P) == 0 for P in extras.values())):
+                # the selected elements are moved, but not by one turn against the violated bound (another amount, or a period the wrong way),
+                # or not the elements tested
                 desc["moves"] = False
             elif L1 == L:
                 desc["moves"] = False
@@ -1477,18 +1685,9 @@ def folds(chk, repo):
         for k, v in list(env.vars.items()):
             if isinstance(v, symx.Mask):
                 env.vars.pop(k)
-    ok = None
-    alld = [d for v in found.values() for d, _ in v]
-    if any(d["moves"] is False or d["recomputed"] is False for d in alld):
-        ok = False
-    elif unrec or set(found) != {"below-minimum", "above-maximum"} or any(len(v) != 1 for v in found.values()) \
-            or any(d["moves"] is None or d["recomputed"] is None for d in alld):
-        ok = None
-    else:
-        ok = True
-    chk.ob("R09.8", "atbound::fold-structure", ok, fi.where(),
-           "range fold: add 360 while below the minimum, subtract 360 while above the maximum (loop conditions recomputed each step): %s%s"
-           % ("; ".join(t for v in found.values() for _, t in v), ("; not recognised: " + "; ".join(unrec)) if unrec else ""))
+    period = periods[0] if len(periods) == 2 and periods[0] == periods[1] and set(found) == {"below-minimum", "above-maximum"} and not unrec else None
+    repo.__dict__["_c09_fold"] = dict(fi=fi, found=found, unrec=unrec, period=period)
+    return repo.__dict__["_c09_fold"]
 
 
 # ---------------------------------------------------------------------------
@@ -1705,9 +1904,9 @@ def fold2(chk, repo):
     to terms (the one-dimensional fold opaque: it moves by whole turns and leaves in-range values alone), specialised to latitude in [-90, 90]
     by interval reasoning, and every remaining guarded case is inspected: if the longitude is replaced, the guards must confine the latitude to
     the poles (to within the 1e-9 degree the property allows on the sky: the set of latitudes the guards admit is computed, not sampled)."""
-    if not repo.has(CO + "atbound2"):
+    if not repo.has(_coords_fn(repo, "atbound2")):
         return
-    fi = repo.func(CO + "atbound2")
+    fi = repo.func(_coords_fn(repo, "atbound2"))
     chk.analysed_unit(fi.qualname)
     key = "atbound2::in-range-pair-is-kept-except-at-the-poles"
     what = "for a latitude within [-90,90] the pair fold returns the latitude unchanged and the longitude up to whole turns, except at |latitude| = 90 exactly"
@@ -1717,7 +1916,7 @@ def fold2(chk, repo):
         return
     T0, P0 = sp.Symbol("lat", real=True), sp.Symbol("lon", real=True)
     dom = {T0: _Iv(-90, True, 90, True)}
-    se = _Eval(repo, opaque={CO + "atbound"})
+    se = _Eval(repo, opaque={_coords_fn(repo, "atbound")})
     try:
         se.run(fi, {params[0]: T0, params[1]: P0}, {})
         Tf, Pf = se.last_env.vars.get(params[0]), se.last_env.vars.get(params[1])
